@@ -90,4 +90,40 @@ def suite_mem_reuse(ctx):
     return s
 
 
-SUITES = [suite_enc, suite_types, suite_ddd_widths, suite_codec_refusals, suite_mem_reuse]
+def suite_reassigned(ctx):
+    """argument objects whose public attribute was assigned anew after construction (the helper classes are plain mutable objects): the call validates what it
+    is about to transmit - an out-of-domain value is refused and nothing is sent, an in-domain value gives the frame of a freshly built object"""
+    from .. import clientlib as cl, enclib, hist
+    from udsoncan import Baudrate
+    s = Suite('reassigned')
+    rng = ctx.rng
+    types = {'f': Baudrate.Type.Fixed, 's': Baudrate.Type.Specific, 'i': Baudrate.Type.Identifier}
+    start = {'f': 9600, 's': 123456, 'i': 0x12}
+    values = [0, 1, 0x12, 0x13, 0xFF, 0x100, 9600, 500000, 123456, 0xFFFFFF, 0x1000000, 0x1123456, -1]
+    for ty in ('f', 's', 'i'):
+        for ct in (1, 2):
+            for v in values:
+                obj = Baudrate(start[ty], types[ty])
+                obj.baudrate = v
+                client, conn = cl.make_client(cl.Cfg(rt=4, p2=2, p2s=2))
+                how, verdict, flags, payload, exc, r = cl.observe_outer(conn, lambda: client.link_control(ct, obj))
+                sends = [o[1] for o in conn.log if o[0] == 'send']
+                # "nothing silently truncated": whatever is sent carries exactly the rate the object holds now (an identifier stands for its standard
+                # rate); a rate the frame cannot carry must be refused.  (Whether an object in this state is accepted at all is left open.)
+                s.evaluations += 1
+                s.distinct.add('lc:%s:%d:%d' % (ty, ct, v))
+                rec = {'site': 'link_control', 'input': 'Baudrate(%d, %s) then .baudrate = %d; link_control(%d, obj)' % (start[ty], ty, v, ct)}
+                rate = enclib.BAUD_BY_ID.get(v) if ty == 'i' else v
+                if ct == 2:
+                    carry = bytes([0x87, 2]) + rate.to_bytes(3, 'big') if rate is not None and 0 <= rate <= 0xFFFFFF else None
+                else:
+                    ident = v if ty == 'i' else {r_: i_ for i_, r_ in enclib.BAUD_BY_ID.items()}.get(v)
+                    carry = bytes([0x87, 1, ident]) if ident is not None and 0 <= ident <= 0xFF else None
+                s.count('representable' if carry else 'not-representable')
+                if sends and sends != [carry]:
+                    s.fail(dict(rec, observed='sent ' + sends[0].hex(), required=('exactly ' + carry.hex() + ' or a refusal') if carry else 'rejected before anything is sent: the frame cannot carry this rate'))
+    s.exhaustive = True
+    return s
+
+
+SUITES = [suite_enc, suite_types, suite_ddd_widths, suite_codec_refusals, suite_mem_reuse, suite_reassigned]
